@@ -878,6 +878,17 @@ func (e *Emitter) emitHelperFunctions(calledFunctions map[ir.FunctionHandle]bool
 		savedLocalVarStructTypes := e.localVarStructTypes
 		savedLocalVarArrayTypes := e.localVarArrayTypes
 		savedLoopStack := e.loopStack
+		// The per-local classification maps are keyed by the local variable's
+		// index within ITS function: the helper needs its own (helpers are
+		// emitted before the entry point has created any).
+		savedZeroStoreLocals := e.zeroStoreLocals
+		savedInitOnlyLocals := e.initOnlyLocals
+		savedSingleStoreLocals := e.singleStoreLocals
+		savedOutputPromotedLocals := e.outputPromotedLocals
+		e.zeroStoreLocals = make(map[uint32]ir.TypeHandle)
+		e.initOnlyLocals = make(map[uint32]ir.ExpressionHandle)
+		e.singleStoreLocals = make(map[uint32]ir.ExpressionHandle)
+		e.outputPromotedLocals = make(map[uint32]bool)
 
 		e.mainFn = dxilFn
 		e.exprValues = make(map[ir.ExpressionHandle]int)
@@ -968,6 +979,10 @@ func (e *Emitter) emitHelperFunctions(calledFunctions map[ir.FunctionHandle]bool
 		e.localVarStructTypes = savedLocalVarStructTypes
 		e.localVarArrayTypes = savedLocalVarArrayTypes
 		e.loopStack = savedLoopStack
+		e.zeroStoreLocals = savedZeroStoreLocals
+		e.initOnlyLocals = savedInitOnlyLocals
+		e.singleStoreLocals = savedSingleStoreLocals
+		e.outputPromotedLocals = savedOutputPromotedLocals
 		e.globalVarAllocas = savedGlobalVarAllocas
 		e.globalVarAllocaTypes = savedGlobalVarAllocaTypes
 		e.intConsts = savedIntConsts
